@@ -23,7 +23,7 @@ theorem DStop.client_mon (s0 : Nat) : ∀ a ∈ clMon s0, DStop.Kept a := by
   all_goals (try (simp at hg; done))
   all_goals (repeat' split)
   all_goals (intro he hm hF)
-  all_goals (first | (cases hm; done) | (obtain ⟨k1, k2, k3, k4, k5, k6, k7, k8, k9, k10, k11, k12, k13⟩ := hU _ he hm))
+  all_goals (first | (cases hm; done) | (obtain ⟨k1, k2, k3, k4, k5, k6, k7, k8, k9, k10, k11, k12, k13, k14⟩ := hU _ he hm))
   all_goals (first | (have hEE := hE _ he hm hF; have w2 := hEE.w2; have w4 := hEE.w4; have w5 := hEE.w5; have w6 := hEE.w6; have e10b := hEE.drained_pc))
   all_goals (first | (obtain ⟨c1, c2, c3, c4, c7, c7a, c8, y, yq, yqs, yqx, yqe, yend⟩ := h _ he hm hF))
   all_goals (
